@@ -225,6 +225,24 @@ def apply_fn(fs, item_text, unit_id, rewrites_log, out, where, canary=False, len
         text, k = rx.subn(repl, text)
         for _ in range(k):
             rewrites_log.append({"id": rid, "fn": fs.name, "why": why})
+    # R1b: `.with_context(|| <closure building a message>)` only decorates the error: dropped (balanced parentheses)
+    while True:
+        m1 = re.search(r"\s*\.with_context\(", text)
+        if not m1:
+            break
+        depth, j, in_str = 1, m1.end(), False
+        while j < len(text) and depth > 0:
+            ch = text[j]
+            if in_str:
+                if ch == "\\": j += 1
+                elif ch == '"': in_str = False
+            else:
+                if ch == '"': in_str = True
+                elif ch == "(": depth += 1
+                elif ch == ")": depth -= 1
+            j += 1
+        text = text[:m1.start()] + text[j:]
+        rewrites_log.append({"id": "R1b", "fn": fs.name, "why": "error decoration only (.with_context closure dropped)"})
     for rx, repl, why in fs.subs:
         text, k = re.subn(rx, repl, text, flags=re.S)
         if k == 0:
